@@ -157,7 +157,20 @@ def run(ctx, res):
         cf = prog.need(cn, U)
         evc = APE.run(prog, cg, cf, bound=APE.BOUND)
         for p in evc.paths:
-            if p.end != "exit" or p.ret() == ("c", 0):
+            if p.end == "exit" and p.ret() == ("c", 0):
+                # giving up is only right when the index named no block at all
+                blk = []
+                for e_ in p.events:
+                    if e_.kind == "store" and re.sub(r"@\d+", "", e_.a) == "it->b":
+                        c_ = p.cons.get((APE.vstr(e_.b), "#0"))
+                        if c_ is not None:
+                            blk.append(c_)
+                res.check(bool(blk) and blk[-1] == frozenset((EQ,)), "C02.R2", site(cf, "null-only-without-block"),
+                          "the constructor returns NULL only when no block could be loaded",
+                          "%s returns NULL although a block was loaded: a range/prefix lookup starting just behind a block's last key must continue in the next block"
+                          % cn, cf.loc(cf.body), p.describe(cf))
+                continue
+            if p.end != "exit":
                 continue
             st = {re.sub(r"@\d+", "", e.a).split("->")[-1]: e.b for e in p.events if e.kind == "store" and "->" in e.a}
             res.check(st.get("valid") == ("c", 1) and st.get("first") == ("c", 1), "C02.R2", site(cf, "starts-valid-and-first"),
@@ -215,6 +228,15 @@ def run(ctx, res):
             elif y == bc.params[1]["name"] and x == bc.params[3]["name"]:
                 l = APE.mirror(v)
         r = p.ret()
+        if not p.calls("memcmp"):
+            # nothing compared (common length 0 short-cut): the result must still follow the length relation
+            good = (l == frozenset((EQ,)) and r == ("c", 0)) or (l == frozenset((LT,)) and r[0] == "c" and r[1] < 0) or \
+                   (l == frozenset((GT,)) and r[0] == "c" and r[1] > 0)
+            res.check(good, "C02.R3", site(bc, "no-bytes-compared:len%s" % ("".join(sorted(l)) if l else "-")),
+                      "without comparing bytes the result is the sign of the length relation",
+                      "bytes_compare returns %s without comparing any byte although the lengths may differ (%s): the empty key compares equal to every key"
+                      % (APE.vstr(r), sorted(l) if l else "unconstrained"), bc.loc(bc.body), p.describe(bc))
+            continue
         memsym = [e.c for e in p.calls("memcmp")][0]
         sig = site(bc, "mem%s:len%s" % ("".join(sorted(m)) if m else "-", "".join(sorted(l)) if l else "-"))
         if m is not None and EQ not in m:
